@@ -68,6 +68,10 @@ pub enum WStep {
     /// partition heals; then, if `back` > 0, the second leader is cut off in turn so that another node (often the first
     /// leader) leads again and takes `back` publishes
     LeaderHandover { during: u8, after: u8, back: u8 },
+    /// replicated cache (what login sessions and limiter clears use): set string entry `k` with a time to live -
+    /// ttl 0: none (-1), 1: an hour, 2: two seconds (expired by the time anything is observed across a restart)
+    CacheSet { node: u64, k: u8, ttl: u8 },
+    CacheDel { node: u64, k: u8 },
 }
 
 /// namespace ids: two of the four are tenants that configurations are published in, so that user-created namespaces hold
@@ -122,6 +126,10 @@ pub async fn mcp_obs(n: &NodeH) -> anyhow::Result<Vec<(String, String)>> {
 
 pub fn gen_mcp_step(rng: &mut Rng, nodes: u64) -> WStep {
     let node = rng.range(1, nodes);
+    // (a quarter of these steps are replicated-cache operations)
+    if rng.chance(0.25) {
+        return if rng.chance(0.75) { WStep::CacheSet { node, k: rng.below(4) as u8, ttl: rng.below(3) as u8 } } else { WStep::CacheDel { node, k: rng.below(4) as u8 } };
+    }
     let r = rng.below(100);
     if r < 40 {
         WStep::McpTool { node, k: rng.below(2) as u8 }
@@ -503,6 +511,40 @@ pub async fn do_step(n: &NodeH, st: &WStep, m: &mut WModel, timeout_ms: u64) -> 
             advance(*ms).await;
             OpOutcome::Ok
         }
+        WStep::CacheSet { k, ttl, .. } => {
+            use rnacos::cache::actor_model::{CacheManagerRaftReq, CacheSetParam};
+            use rnacos::cache::model::{CacheKey, CacheType, CacheValue};
+            m.uniq += 1;
+            let mut p = CacheSetParam::new(CacheKey::new(CacheType::String, Arc::new(format!("ck{}", k % 4))), CacheValue::String(Arc::new(format!("cv{}", m.uniq))));
+            p.ttl = match ttl % 3 {
+                0 => -1,
+                1 => 3600,
+                _ => 2,
+            };
+            p.now = rnacos::now_second_i32();
+            sim::count("probe.cache_op", 1);
+            let short = *ttl % 3 == 2;
+            let r = match within(timeout_ms, n.app.raft_request_route.request(ClientRequest::CacheReq { req: CacheManagerRaftReq::Set(p) })).await {
+                None => OpOutcome::Timeout,
+                Some(Ok(_)) => OpOutcome::Ok,
+                Some(Err(e)) => OpOutcome::Err(e.to_string()),
+            };
+            if short {
+                // (a short-lived entry has expired before anything is observed: time passes between two observations)
+                advance(3_000).await;
+            }
+            r
+        }
+        WStep::CacheDel { k, .. } => {
+            use rnacos::cache::actor_model::CacheManagerRaftReq;
+            use rnacos::cache::model::{CacheKey, CacheType};
+            sim::count("probe.cache_op", 1);
+            match within(timeout_ms, n.app.raft_request_route.request(ClientRequest::CacheReq { req: CacheManagerRaftReq::Remove(CacheKey::new(CacheType::String, Arc::new(format!("ck{}", k % 4)))) })).await {
+                None => OpOutcome::Timeout,
+                Some(Ok(_)) => OpOutcome::Ok,
+                Some(Err(e)) => OpOutcome::Err(e.to_string()),
+            }
+        }
         WStep::McpTool { k, .. } => {
             m.uniq += 1;
             let version = m.uniq;
@@ -593,7 +635,7 @@ pub async fn do_step(n: &NodeH, st: &WStep, m: &mut WModel, timeout_ms: u64) -> 
 
 pub fn step_node(st: &WStep) -> u64 {
     match st {
-        WStep::CfgSet { node, .. } | WStep::CfgDel { node, .. } | WStep::NsSet { node, .. } | WStep::NsDel { node, .. } | WStep::UserAdd { node, .. } | WStep::UserUpd { node, .. } | WStep::UserDel { node, .. } | WStep::SeqNext { node, .. } | WStep::SeqRange { node, .. } | WStep::SeqBurst { node, .. } | WStep::PInstReg { node, .. } | WStep::PInstDel { node, .. } | WStep::Restart { node } | WStep::KillRestart { node } | WStep::Import { node, .. } | WStep::PlantSnapshot { node, .. } | WStep::McpTool { node, .. } | WStep::McpToolDel { node, .. } | WStep::McpServer { node, .. } | WStep::McpServerDel { node, .. } => *node,
+        WStep::CfgSet { node, .. } | WStep::CfgDel { node, .. } | WStep::NsSet { node, .. } | WStep::NsDel { node, .. } | WStep::UserAdd { node, .. } | WStep::UserUpd { node, .. } | WStep::UserDel { node, .. } | WStep::SeqNext { node, .. } | WStep::SeqRange { node, .. } | WStep::SeqBurst { node, .. } | WStep::PInstReg { node, .. } | WStep::PInstDel { node, .. } | WStep::Restart { node } | WStep::KillRestart { node } | WStep::Import { node, .. } | WStep::PlantSnapshot { node, .. } | WStep::McpTool { node, .. } | WStep::McpToolDel { node, .. } | WStep::McpServer { node, .. } | WStep::McpServerDel { node, .. } | WStep::CacheSet { node, .. } | WStep::CacheDel { node, .. } => *node,
         WStep::Advance { .. } | WStep::LeaderHandover { .. } => 0,
     }
 }
